@@ -1,7 +1,123 @@
-From Coq Require Import ZArith List.
+(* C11 - serialization: round trip, exact size, protobuf wire compatibility, hostile-input safety.
+   Only statements here; every proof is `exact <lemma of SE/SEProofs.v>`.
+
+   Model: SE/SEModel.v (types ty, values val, ssize/encode as the two passes of the code, decode over a model of
+   CodedInputStream: the window up to the innermost limit; PushLimit narrows it, so a parser never sees a byte
+   outside its limit BY CONSTRUCTION of the stream model - memory safety of the real code is checked by the
+   ASan/UBSan runs, not proved).
+
+   Proved for ALL values of ALL types of the universe (incl. sets, maps):  c11_size_exact.
+   Proved for all well-formed values of every type built from scalars, enum, string, vector, list, array,
+   unique/shared pointers and AGGREGATES with field numbers (base classes are fields), arbitrarily nested, debug
+   and NDEBUG, fresh target object:  c11_roundtrip_partial, c11_roundtrip_scalar_partial.  "partial" = (1) hash
+   containers (set/map) are outside `no_hash`; (2) container elements must not be smart pointers to scalars
+   (`ty_ok`; refuted otherwise); (3) flat array / string / stream under an enclosing limit (refuted without).
+   Proved for every aggregate schema of that universe (c11_compat, c11_field_order_irrelevant): an input made of
+   any sequence, in any order, of encodings of distinct known fields and of unknown fields of every wire type
+   (varint, fixed64, length-delimited, fixed32) parses to the default object updated at exactly the fields present:
+   unknown fields are skipped, absent fields keep their defaults, field order does not matter.
+   NOT proved (checked on implementation + model by the correspondence run only): success of a parse of ARBITRARY
+   bytes => stable under re-serialisation; that the wire format of each field equals protobuf's own encoder output
+   (checked against protoc-generated messages by the monitors).
+   The full-strength statements are FALSE of the code as it is - see the *_refuted theorems (each replayed on the
+   real classes by checks/c11.py and listed in KNOWN_FINDINGS.txt). *)
+From Coq Require Import ZArith List Permutation.
 Require Import Verif.Gen.Gen_serialization Verif.SE.SEModel Verif.SE.SEProofs.
 Import ListNotations.
 Local Open Scope Z_scope.
-Theorem c11_stub : encode (TS KI32) (VInt 1) = [1].
-Proof. exact se_stub. Qed.
-Print Assumptions c11_stub.
+
+(* the predicted size (calculate_serialized_size, with the regenerated varint_size formula and skip tests) is the
+   number of bytes serialize writes: every type, every well-formed value *)
+Theorem c11_size_exact : forall t v, ty_ok t -> wf t v -> ssize t v = Z.of_nat (length (encode t v)).
+Proof. exact size_exact. Qed.
+Print Assumptions c11_size_exact.
+
+(* varints: what WriteVarint writes, ReadVarint reads back, whatever follows *)
+Theorem c11_varint_roundtrip : forall n post, 0 <= n < 2 ^ 64 -> get_varint 10 (varint n ++ post) = Some (n, post).
+Proof. exact get_varint_varint. Qed.
+Print Assumptions c11_varint_roundtrip.
+
+(* babylon's varint_size formula (regenerated) is the number of bytes of the varint *)
+Theorem c11_varint_size : forall n, 0 <= n < 2 ^ 64 -> Z.of_nat (length (varint n)) = bb_varint_size n.
+Proof. exact varint_length_bb. Qed.
+Print Assumptions c11_varint_size.
+
+(* tag = field_number << 3 | wire_type (regenerated) splits back into number and wire type *)
+Theorem c11_tag_layout : forall num t, 0 <= num -> tag_of num t = num * 8 + wire t.
+Proof. exact tag_of_add. Qed.
+Print Assumptions c11_tag_layout.
+
+(* round trip into a fresh object; pointers to empty encodings come back null (norm) *)
+Theorem c11_roundtrip_partial : forall nd t v, ty_ok t -> no_hash t -> wf t v -> is_ld t = true ->
+  parse nd false t (encode t v) = Ok (norm t v) (S0 []).
+Proof. exact roundtrip_ld. Qed.
+Print Assumptions c11_roundtrip_partial.
+
+(* scalars (and non-null pointers to them) delimit themselves: whatever follows is left untouched *)
+Theorem c11_roundtrip_scalar_partial : forall nd t v post, ty_ok t -> no_hash t -> wf t v -> is_ld t = false ->
+  nonnull t v -> parse nd false t (encode t v ++ post) = Ok (norm t v) (S0 post).
+Proof. exact roundtrip_nld. Qed.
+Print Assumptions c11_roundtrip_scalar_partial.
+
+(* protobuf compatibility of structures declared with field numbers.  A chunk is the encoding of one known field
+   (CF i x: field index i with value x, non-empty encoding) or one unknown field (CU num w payload).  Any sequence
+   of chunks with distinct known fields parses, into a fresh object, to the defaults updated by those fields. *)
+Theorem c11_compat : forall nd fs cs, ty_ok (TAgg fs) -> no_hash (TAgg fs) ->
+  Forall (chunk_ok fs) cs -> NoDup (flat_map chunk_idx cs) ->
+  parse nd false (TAgg fs) (concat (map (chunk_bytes fs) cs))
+  = Ok (VSeq (fold_left (chunk_apply fs) cs (map (fun p => dflt (snd p)) fs))) (S0 []).
+Proof. exact compat_parse. Qed.
+Print Assumptions c11_compat.
+
+Theorem c11_field_order_irrelevant : forall nd fs cs cs', ty_ok (TAgg fs) -> no_hash (TAgg fs) ->
+  Forall (chunk_ok fs) cs -> NoDup (flat_map chunk_idx cs) -> Permutation cs cs' ->
+  exists v, parse nd false (TAgg fs) (concat (map (chunk_bytes fs) cs)) = Ok v (S0 []) /\
+            parse nd false (TAgg fs) (concat (map (chunk_bytes fs) cs')) = Ok v (S0 []).
+Proof. exact compat_order_irrelevant. Qed.
+Print Assumptions c11_field_order_irrelevant.
+
+(* one iteration of the generated deserialize() skips an unknown field of any wire type *)
+Theorem c11_unknown_field_skipped : forall nd fs num w pay rest cur fuel,
+  0 <= num < 2 ^ 29 -> ~ In num (map fst fs) -> unknown_payload w pay ->
+  agg_loop (tbl nd fs) (S fuel) (S0 ((varint (num * 8 + w) ++ pay) ++ rest)) cur
+  = agg_loop (tbl nd fs) fuel (S0 rest) cur.
+Proof. exact agg_unknown_step. Qed.
+Print Assumptions c11_unknown_field_skipped.
+
+Example c11_compat_chunks_exist :
+  Forall (chunk_ok [(1, TS KI32); (2, TStr)]) [CU 15 2 (varint 2 ++ [7; 8]); CF 1 (VStr [97]); CU 9 0 (varint 300); CF 0 (VInt (-1))]
+  /\ NoDup (flat_map chunk_idx [CU 15 2 (varint 2 ++ [7; 8]); CF 1 (VStr [97]); CU 9 0 (varint 300); CF 0 (VInt (-1))]).
+Proof. exact compat_example. Qed.
+
+(* ---- refutations of the full statements (findings) ---- *)
+Theorem c11_roundtrip_refuted : exists t v, wf t v /\ parse false false t (encode t v) <> Ok (norm t v) (S0 []).
+Proof. exact se_roundtrip_refuted_null_scalar_ptr. Qed.
+Print Assumptions c11_roundtrip_refuted.
+
+Theorem c11_any_presentation_refuted :
+  parse false true (TVec (TS KI32)) (encode (TVec (TS KI32)) (VSeq [VInt 1; VInt 2; VInt 3])) = Ok (VSeq []) (mkS [1; 2; 3] None).
+Proof. exact se_unlimited_refuted. Qed.
+Print Assumptions c11_any_presentation_refuted.
+
+Theorem c11_any_presentation_crash_refuted :
+  parse false true (TVec (TS KF32)) (encode (TVec (TS KF32)) (VSeq [VInt 1065353216])) = Crash.
+Proof. exact se_unlimited_float_crash. Qed.
+Print Assumptions c11_any_presentation_crash_refuted.
+
+Theorem c11_parse_terminates_refuted : parse false false (TVec TStr) (repeat 128 11) = Hang.
+Proof. exact se_terminates_refuted. Qed.
+Print Assumptions c11_parse_terminates_refuted.
+
+(* ---- non-vacuity and the aggregate behaviours on a concrete schema ---- *)
+Example c11_hypotheses_satisfiable : wf ex_ty ex_val /\ ty_ok ex_ty /\ no_hash ex_ty /\ is_ld ex_ty = true.
+Proof. exact wf_example. Qed.
+Example c11_aggregate_roundtrip : parse false false ex_ty (encode ex_ty ex_val) = Ok (norm ex_ty ex_val) (S0 []).
+Proof. exact ex_roundtrip. Qed.
+Example c11_unknown_skipped_any_order :
+  parse false false ex_ty ([104; 5] ++ [26; 3; 1; 172; 2] ++ [113; 1; 2; 3; 4; 5; 6; 7; 8] ++ [18; 2; 97; 98] ++
+                           [122; 2; 9; 9] ++ [8; 255; 255; 255; 255; 15] ++ [133; 1; 1; 2; 3; 4])
+  = Ok (norm ex_ty ex_val) (S0 []).
+Proof. exact ex_unknown_and_order. Qed.
+Example c11_absent_keep_defaults :
+  parse false false ex_ty [18; 2; 97; 98] = Ok (VSeq [VInt 0; VStr [97; 98]; VSeq []; VNull]) (S0 []).
+Proof. exact ex_absent_keep_defaults. Qed.
